@@ -42,6 +42,7 @@ def s1_s2(ck, an):
     loop = loops[0]
     tn = [e.id for e in loop.target.elts] if isinstance(loop.target, ast.Tuple) else ["?", "?"]
     cvar, qvar = tn[0], tn[1]
+    Cn, Q = loop_item(fa, loop, 0), loop_item(fa, loop, 1)      # the position's contract and quantity, by value id
     # NaN raise
     nan_tests = []
     price_var = None
@@ -63,7 +64,7 @@ def s1_s2(ck, an):
     for r in raises_in(fa):
         sg = fa.syntactic_guards(r)
         if any(p[0] == "truthy" and "isnan(" in p[1] for p in sg):
-            extra = [p for p in sg if not (p[0] == "truthy" and "isnan(" in p[1]) and not (p[0] == "rel" and p[1] == "!=" and qvar in p[2])]
+            extra = [p for p in sg if not (p[0] == "truthy" and "isnan(" in p[1]) and not rel_is(p, "!=", Q)]
             ck.check(not extra, "GUARD", "S1.nan-raise-unconditional", subj, fa.loc(r), "the NaN raise applies to every non-zero position",
                      f"the NaN raise is additionally conditioned on {[cmp_key(p) for p in extra]}", construct=stmt_text(enclosing_if(r)))
     # every other use of the price is dominated by the test
@@ -71,34 +72,23 @@ def s1_s2(ck, an):
             and not any(n is x for t in nan_tests for x in ast.walk(t))]
     ck.floor("uses of the liquidation price in holdings_values", len(uses), 1)
     ord_before(ck, fa, "S1.nan-test-before-use", nan_tests, uses, "the NaN test", "arithmetic on the liquidation price")
-    # the tested price is the liquidation side
-    defs = [d for d in fa.rd.defs if d.var == price_var and d.kind == "assign"]
-    for d in defs:
-        v = d.value
-        try:
-            if isinstance(v, ast.IfExp):
-                qkey = fa.sym.canon(ast.Name(id=qvar, ctx=ast.Load()), d.node)
-                tab = sign_table_expr(fa.sym, v, qkey, d.node)
-                good = tab["pos"].endswith(".bid_price") and tab["neg"].endswith(".ask_price")
-                detail = f"long -> {tab['pos']}, short -> {tab['neg']}"
-            else:
-                k = fa.sym.canon(v, d.node)
-                good = (f".acq_price(-{qvar}" in k or f".liq_price({qvar}" in k) and k.startswith("self.exchange[")
-                detail = k
-        except AnalysisError as e:
-            good, detail = False, str(e)
-        ck.check(good, "SIGN", "S1.liquidation-side", subj, fa.loc(d.ast), "the price tested and used is the bid for longs and the ask for shorts",
-                 f"the liquidation price is not the liquidation side: {detail}", construct=ast.unparse(d.ast))
-        # the book belongs to the loop's contract
-        k = fa.sym.canon(v, d.node)
-        ck.check(f"self.exchange[{cvar}" in k, "ARGFLOW", "S1.own-book", subj, fa.loc(d.ast), "the quote is read from the position's own book",
-                 f"the liquidation price comes from {k[:90]}", construct=ast.unparse(d.ast))
+    # the tested price is the liquidation side of the position's own book: its value id at the test equals one of the accepted spellings
+    at = fa.node_of(nan_tests[0]).id
+    price_val = fa.sym.ev(ast.Name(id=price_var, ctx=ast.Load()), at) if price_var else None
+    book = f"self.exchange[{cvar}]"
+    accepted = [f"{book}.bid_price if {qvar} >= 0 else {book}.ask_price", f"{book}.bid_price if {qvar} > 0 else {book}.ask_price", f"{book}.liq_price({qvar})", f"{book}.acq_price(-{qvar})"]
+    good = price_val is not None and any(price_val == spec(fa, t, at) for t in accepted)
+    ck.check(good, "SIGN", "S1.liquidation-side", subj, fa.loc(nan_tests[0]), "the price tested and used is the bid for longs and the ask for shorts, of the position's own book",
+             f"the liquidation price is {price_val.key()[:200] if price_val is not None else '?'}: not the liquidation side of the position's own book", construct="liq_price = bid if quantity >= 0 else ask")
+    for rd_ in [n for n in ast.walk(loop) if isinstance(n, ast.Subscript) and ast.unparse(n.value).endswith("exchange")]:
+        k = fa.sym.canon(rd_.slice)
+        ck.check(k == Cn.key(), "ARGFLOW", "S1.own-book", subj, fa.loc(rd_), "the quote is read from the position's own book", f"a quote is read from the book of {k[:90]}", construct=stmt_text(rd_))
     # S2: quote reads only for non-zero positions
     reads = [n for n in ast.walk(loop) if isinstance(n, ast.Subscript) and ast.unparse(n.value).endswith("exchange")]
     ck.floor("order-book reads in holdings_values", len(reads), 1)
     for rd in reads:
         preds = fa.guard_predicates(rd)
-        nz = any(p[0] == "rel" and p[1] == "!=" and qvar in p[2] for p in preds)
+        nz = any(rel_is(p, "!=", Q) for p in preds)
         ck.check(nz, "GUARD", "S2.flat-needs-no-quote", subj, fa.loc(rd), "order books are read only under quantity != 0",
                  "an order book is read for flat positions too (a discontinued flat contract would fail valuation)", construct=stmt_text(rd))
     # flat positions are valued 0: every definition of the stored value is either the constant 0 or made under quantity != 0
@@ -110,7 +100,7 @@ def s1_s2(ck, an):
         bad = []
         for d in other:
             preds = fa.guard_predicates(d.ast)
-            if not any(p[0] == "rel" and p[1] == "!=" and qvar in p[2] for p in preds):
+            if not any(rel_is(p, "!=", Q) for p in preds):
                 bad.append(ast.unparse(d.ast)[:60])
         ck.check(bool(zero) and not bad, "GUARD", "S2.flat-valued-zero", subj, fa.loc(st), "flat positions are valued 0.0 (all other valuations happen under quantity != 0)",
                  f"flat positions are not valued by the constant 0: zero-defs={len(zero)}, unguarded valuations={bad}", construct=stmt_text(st))
@@ -189,8 +179,7 @@ def s4(ck, an):
         ck.check(ok, "ARGFLOW", "S4.executes-built-list", fa.f.short, fa.loc(loop), "the loop transacts exactly the list make_trades returned",
                  f"the execution loop ranges over {it[:70]}", construct=stmt_text(loop))
         a = fa.sym.canon(t.args[0]) if t.args else "?"
-        lv = ast.unparse(loop.target)
-        ck.check(a.startswith(lv + "∈"), "ARGFLOW", "S4.transacts-loop-item", fa.f.short, fa.loc(t), "each iteration transacts the loop's trade", f"transact receives {a[:60]}", construct=stmt_text(t))
+        ck.check(isinstance(loop.target, ast.Name) and a == loop_item(fa, loop).key(), "ARGFLOW", "S4.transacts-loop-item", fa.f.short, fa.loc(t), "each iteration transacts the loop's trade", f"transact receives {a[:60]}", construct=stmt_text(t))
 
 
 def s5(ck, an):
